@@ -40,7 +40,12 @@ ASSUMPTIONS = [
     "be unreachable from the parsers (operands built by the parsers have their declared "
     "classes)",
     "implicit exceptions (TypeError/KeyError/OverflowError from unmodelled operations) and "
-    "regex backtracking on arbitrary text are covered by the bounded corpus only"]
+    "regex backtracking on arbitrary text are covered by the bounded corpus only; the "
+    "corpus includes component magnitudes that float() turns into infinity (exponent "
+    "spellings, 400-digit runs) alone and spliced into every recurrence notation - "
+    "one recorded finding there (KF-C09-1: OverflowError for BOUNDED recurrence texts)",
+    "floats are reals in the proof model: infinities/NaN do not exist there, which is why "
+    "the magnitude cases are a bounded matter"]
 LEVEL_TEXT = ("First sentence (accept/reject decision): proof. Second sentence (exception "
               "type on arbitrary text, no hang): explicit-raise-set obligation proved, the "
               "rest bounded. Hence 'other'.")
@@ -108,6 +113,17 @@ def bounded(tier, seed, repo):
         strings.add(a[:rnd.randrange(len(a) + 1)] + b[rnd.randrange(len(b) + 1):])
     strings |= {"", " ", "T", "R", "P", "-", "+", "Z", "R/", "R//", "PT", "P-1D", "9" * 400,
                 "P" + "1" * 5000 + "D", "2000-01-01T" + "0" * 3000}
+    # magnitudes: component texts that float() turns into infinity (over-long digit runs,
+    # exponent spellings the loose \d.* groups let through), alone and spliced into the
+    # recurrence notations
+    huge = ["PT1E999H", "PT1e999S", "PT9e400M", "PT" + "9" * 400 + "S", "PT" + "9" * 400 + "H",
+            "PT" + "9" * 400 + "M", "-PT" + "9" * 400 + "S", "P1DT" + "9" * 400 + ",5S",
+            "P1Y2M3DT1E999H", "PT1E308H", "PT1,5E999S"]
+    strings |= set(huge)
+    for h in huge:
+        strings |= {"R/2000-01-01T00Z/" + h, "R/" + h + "/2000-01-01T00Z",
+                    "R3/" + h + "/2000-01-01T00Z", "R3/2000-01-01T00Z/" + h,
+                    "R1/2000-01-01T00Z/" + h}
     parsers = []
     for kw in ({}, {"allow_truncated": True}, {"allow_only_basic": True},
                {"num_expanded_year_digits": 0}, {"num_expanded_year_digits": 3,
@@ -126,11 +142,11 @@ def bounded(tier, seed, repo):
             except ValueError:
                 pass
             except _Hang:
-                if len(fails) < 5:
+                if len(fails) < 60:
                     fails.append({"id": "hang-%d" % n, "input": {"parser": pname, "text": s},
                                   "observed": "no result within 5 s"})
             except Exception as e:
-                if len(fails) < 5:
+                if len(fails) < 60:
                     fails.append({"id": "exc-%d" % n, "input": {"parser": pname, "text": s},
                                   "observed": "%s: %s" % (type(e).__name__, str(e)[:100]),
                                   "expected": "a result or an error derived from ValueError"})
